@@ -167,6 +167,13 @@ func intrinsicTable() map[string]intrinsic {
 		ex.stats.Emits[ex.argStr(a[0])] = v.Val
 		return nil
 	}
+	t[vsName("Trace")] = func(ex *Exec, fn *ssa.Function, a []Value) Value {
+		if v, ok := a[1].(*smt.Term); ok {
+			ex.traces = append(ex.traces, traceRec{ex.argStr(a[0]), v})
+		}
+		return nil
+	}
+	t[vsName("TraceBool")] = t[vsName("Trace")]
 	t[vsName("Symbolic")] = func(ex *Exec, fn *ssa.Function, a []Value) Value { return ex.ctx.True }
 	t[vsName("IntRange")] = func(ex *Exec, fn *ssa.Function, a []Value) Value {
 		v := ex.input(ex.argStr(a[0]), 64)
@@ -177,6 +184,9 @@ func intrinsicTable() map[string]intrinsic {
 	t[vsName("Choice")] = func(ex *Exec, fn *ssa.Function, a []Value) Value {
 		name := ex.argStr(a[0])
 		n := a[1].(*smt.Term)
+		if fv, ok := ex.cfg.Fixed[name]; ok {
+			return ex.intConst(int64(fv))
+		}
 		if _, exists := ex.inputSet[name]; !exists && n.IsConst() && ex.cfg.Inputs == nil && n.Val > 0 {
 			// a fresh input constrained only by its range: fork over the range without the solver
 			ex.noGuard("vs.Choice")
@@ -748,4 +758,9 @@ func ufAppName(name string, args []*smt.Term, vals []uint64) string {
 	}
 	sb.WriteString(")")
 	return sb.String()
+}
+
+type traceRec struct {
+	name string
+	t    *smt.Term
 }
